@@ -251,6 +251,7 @@ fn account(st: &mut WStats, d: &RunData, prop: &str) {
     let drops = d.recs.iter().filter(|r| r.op.kind() == "drop_handle" && r.res == Res::Unit).count() as u64;
     WStats::bump(f, "F11_handle_drops", drops);
     let k = &d.case.knobs;
+    WStats::bump(&mut st.knobs, format!("workload={}", if d.case.balanced { "balanced executors (several futures per executor)" } else if d.case.lock_harness { "lock harness" } else { "one operation at a time per task" }), 1);
     WStats::bump(&mut st.knobs, format!("policy={:?}", k.policy), 1);
     WStats::bump(&mut st.knobs, format!("time={:?}", k.time), 1);
     WStats::bump(&mut st.knobs, format!("parallelism={}", k.parallelism), 1);
